@@ -123,6 +123,25 @@ func init() {
 	regPrim("vsetNow", func(ex *Exec, fr *frame, a []Value) Value { ex.clock = a[0]; return nil })
 	regPrim("vgetNow", func(ex *Exec, fr *frame, a []Value) Value { return ex.clock })
 	regPrim("vyield", func(ex *Exec, fr *frame, a []Value) Value { ex.yieldPoint("vyield"); return nil })
+	regPrim("vquiesce", func(ex *Exec, fr *frame, a []Value) Value {
+		// let every other goroutine run until all are blocked and no timer is pending
+		me := ex.cur
+		ex.block(func() bool {
+			for _, g := range ex.gs {
+				if g != me && ex.runnable(g) {
+					return false
+				}
+			}
+			for _, t := range ex.timers {
+				if !t.fired && !t.stopped {
+					return false
+				}
+			}
+			return true
+		}, "vquiesce")
+		return nil
+	})
+	regPrim("vrealclock", noop)
 	regPrim("vsymbolic", func(ex *Exec, fr *frame, a []Value) Value { return true })
 	regPrim("vnote", noop)
 
@@ -553,6 +572,40 @@ func init() {
 		ex.clock = simplify(TAdd(intTerm(ex.clock), intTerm(a[0])))
 		ex.yieldPoint("sleep")
 		return nil
+	})
+	reg("time.NewTimer", func(ex *Exec, fr *frame, a []Value) Value {
+		ch := ex.newChan(1, nil)
+		ch.isTimer = true
+		ch.deadline = simplify(TAdd(intTerm(ex.clock), intTerm(a[0])))
+		ex.timers = append(ex.timers, ch)
+		cell := Value(Struct{ch, Struct{}})
+		return &cell
+	})
+	reg("(*time.Timer).Stop", func(ex *Exec, fr *frame, a []Value) Value {
+		p := a[0].(*Value)
+		if p == nil {
+			return false
+		}
+		ch := (*p).(Struct)[0].(*Chan)
+		was := !ch.fired && !ch.stopped
+		ch.stopped = true
+		return was
+	})
+	reg("(*time.Timer).Reset", func(ex *Exec, fr *frame, a []Value) Value {
+		p := a[0].(*Value)
+		ch := (*p).(Struct)[0].(*Chan)
+		was := !ch.fired && !ch.stopped
+		ch.stopped, ch.fired = false, false
+		ch.buf = nil
+		ch.deadline = simplify(TAdd(intTerm(ex.clock), intTerm(a[1])))
+		return was
+	})
+	reg("time.After", func(ex *Exec, fr *frame, a []Value) Value {
+		ch := ex.newChan(1, nil)
+		ch.isTimer = true
+		ch.deadline = simplify(TAdd(intTerm(ex.clock), intTerm(a[0])))
+		ex.timers = append(ex.timers, ch)
+		return ch
 	})
 	reg("time.ParseDuration", func(ex *Exec, fr *frame, a []Value) Value {
 		switch s := a[0].(type) {
